@@ -270,8 +270,18 @@ def _cli(ctx, case):
             ctx.count("cli_roundtrips_with_private_flag")
         else:
             common = cli_ip_args(fcfg) + ["--preserve-host-bits", str(B)]
-        p1 = run_cli(["-a", "-i", src, "-o", os.path.join(d, "anon.cfg")] + common, case["hs"][0])
-        p2 = run_cli(["-u", "-i", os.path.join(d, "anon.cfg"), "-o", os.path.join(d, "back.cfg")] + common, case["hs"][1])
+        p1 = run_cli(["-a", "-i", src, "-o", os.path.join(d, "anon.cfg")] + common, case["hs"][0], cwd=d)
+        # by the time of the undo run the working directory holds other files - also ones named like option values
+        # (the salt, a word): an option value is a value, never a path to look things up in
+        for name in {fcfg["salt"], "8", str(B)}:
+            if name and "/" not in name and "\x00" not in name and name not in (".", "..") and len(name.encode("utf-8", "replace")) < 200:
+                try:
+                    with open(os.path.join(d, name), "w", encoding="utf-8") as f:
+                        f.write("contentOfAStrayFile\n")
+                    ctx.count("stray_files_named_like_option_values")
+                except (OSError, UnicodeError):
+                    pass
+        p2 = run_cli(["-u", "-i", os.path.join(d, "anon.cfg"), "-o", os.path.join(d, "back.cfg")] + common, case["hs"][1], cwd=d)
         ctx.count("cli_child_processes", 2)
         if p1.returncode or p2.returncode or not os.path.exists(os.path.join(d, "back.cfg")):
             ctx.violation(case, "cli-roundtrip-failed", "netconan -a / -u failed: rc=%s/%s %s %s"
